@@ -39,4 +39,38 @@ def cmdLoad : List Sexp → String
     | _, _, _ => "bad-args"
   | _ => "bad-args"
 
+def optAnchor : Sexp → Option (Option String)
+  | .atom "~" => some none
+  | s => s.str?.map some
+
+partial def toDoc : Sexp → Option Doc
+  | .list [.atom "DS", a, t, v, l, c] => do
+    pure (.scalar (← optAnchor a) (← t.str?) (← v.str?) ⟨← l.nat?, ← c.nat?⟩)
+  | .list (.atom "DQ" :: a :: t :: l :: c :: xs) => do
+    let ys ← xs.mapM toDoc
+    pure (.seq (← optAnchor a) (← t.str?) (ys.foldr Docs.cons Docs.nil) ⟨← l.nat?, ← c.nat?⟩)
+  | .list (.atom "DM" :: a :: t :: l :: c :: xs) => do
+    let rec go : List Sexp → Option DocPairs
+      | [] => some .nil
+      | k :: v :: rest => do
+        let k ← toDoc k
+        let v ← toDoc v
+        let r ← go rest
+        pure (.cons k v r)
+      | _ => none
+    pure (.map (← optAnchor a) (← t.str?) (← go xs) ⟨← l.nat?, ← c.nat?⟩)
+  | .list [.atom "DA", n, l, c] => do pure (.alias (← n.str?) ⟨← l.nat?, ← c.nat?⟩)
+  | _ => none
+
+def cmdLoadDoc : List Sexp → String
+  | [env, doc, ty] =>
+    match toEnv env, toDoc doc, toTy ty with
+    | some env, some d, some T =>
+      (match loadDoc env Gen.loaderTable FUEL d T with
+       | .ok o => "ok " ++ showVal o.value ++ " | " ++ showCalls o.calls ++ " | ( "
+                    ++ String.intercalate " " (o.trace.map hex) ++ " ) | " ++ showNode o.processed
+       | .error f => "err " ++ showErrL f.err ++ " | " ++ showCalls f.calls)
+    | _, _, _ => "bad-args"
+  | _ => "bad-args"
+
 end YatimlModel.Driver
